@@ -1,5 +1,5 @@
 # replay of a bounded stand-in violation (C15): re-run native/c15_hbar.py
 import sys
-print('gaussian X-Z-P: var/hbar at hbar=2.0 is [0.29953, 0.83469], at hbar=0.5 it is [1.19814, 3.33875]')
+print('gaussian state (2 mode(s)) created at hbar=2.0: mean_photon answers differently after the global sf.hbar was set to another value ([(0.0708+0j), (0.15069+0j)] -> [(-0.15406+0j), (0.15069+0j)])')
 print('REPLAY-VIOLATION')
 sys.exit(1)
